@@ -15,7 +15,7 @@ RULE = (
     "file; state = (mode vector, program, record)"
 )
 BOUNDS = {
-    "quick": "all comments of <=3 chunks over 9 chunk kinds x 3 placements (x 2 programs); 10 programs x 12 files x 32 mode vectors",
+    "quick": "all comments of <=3 chunks over 10 chunk kinds x 3 placements (x 2 programs); 10 programs x 12 files x 32 mode vectors",
     "thorough": "comments of <=5 chunks; 10 programs x all 1,093 files of <=6 records x 32 mode vectors",
 }
 CHUNK = 120
@@ -35,6 +35,7 @@ CHUNKS = [
     ("field", "name", "my path"),
     ("field", "Name", "Other"),
     ("stop", ":"),
+    ("tight", "q", "7"),  # written "q:7": the shortest comment that still carries a field
 ]
 PROGRAMS = [
     '[#0 == "k"]',
@@ -62,7 +63,7 @@ MKEYS = list(MODES)
 def _comments(maxlen):
     for n in range(1, maxlen + 1):
         for seq in itertools.product(range(len(CHUNKS)), repeat=n):
-            keys = [CHUNKS[i][1] for i in seq if CHUNKS[i][0] == "field"]
+            keys = [CHUNKS[i][1] for i in seq if CHUNKS[i][0] in ("field", "tight")]
             if len(keys) != len(set(keys)):
                 continue
             if not keys:
@@ -104,6 +105,8 @@ def _render_comment(seq, sep):
             parts.append(c[1])
         elif c[0] == "field":
             parts.append(f"{c[1]}: {c[2]}")
+        elif c[0] == "tight":
+            parts.append(f"{c[1]}:{c[2]}")
         else:
             parts.append(":")
     return sep.join(parts)
@@ -115,7 +118,7 @@ def _expected_fields(seq):
     cur = None
     for i in seq:
         c = CHUNKS[i]
-        if c[0] == "field":
+        if c[0] in ("field", "tight"):
             cur = c[1]
             out[cur] = c[2]
         elif c[0] == "stop":
